@@ -1089,7 +1089,7 @@ func (e *Env) Exec(i int, op *Op) bool {
 			e.failf("%s: a rejected insert into a never-created collection left %d entries in the database root", what, len(ents))
 		}
 		e.flag("rejected-unknown-collection")
-	case "flushOne", "otherInsert", "coldUpdate", "switch", "switchBad":
+	case "flushOne", "otherInsert", "other2Insert", "otherSwitch", "coldUpdate", "switch", "switchBad":
 		// executed by the property's AfterOp hook (C10)
 	case "tick":
 		// virtual time: advanced by the property's AfterOp hook (instrumented build)
